@@ -197,6 +197,8 @@ def run_check(pid, tier, harnesses, level="model_checking", assumptions=(), expl
             if e.get("kind") == "not_modelled":
                 continue
             errors.append(dict(harness=h.name, **e))
+            if e.get("kind") == "Concretized" and e.get("witness") and len(res.witnesses) < 400:
+                res.witnesses.append(e["witness"])      # decided on the witness only (see vsym.run_one)
         # ---- confirm failures on the real build
         groups = {}
         for f in res.failures:
